@@ -36,13 +36,13 @@ CHECKS.update({
     "C12": {
         "engine": "zone", "category": "exploration", "design_ref": "DESIGN.md section 5",
         "technique": "deterministic simulation: zone files through a simulated file layer, seeded op sequences on stateful zone handles, reference model of the TZif table as oracle",
-        "text": "Every file of the installed zone database (598 files, every transition -1/0/+1 s, forward and inverse, in seeded order) plus seeded synthetic TZif files (v1/v2/v3, 0..3000 transitions, >255, no-op transitions, v1 block differing from the 64-bit block) are served from the simulated file system; lookups run as op sequences on a handle with history and on a fresh handle, each answer compared with an independent table model; every fifth plan also runs dconv --zone/--from-zone and dzone --next --prev on the same file. Hangs are caught by a CPU budget. Sampling over op orders, exhaustive over the transitions of the installed database. dzone --prev is judged in the first range of the table as well (right-hand side only).",
+        "text": "Every file of the installed zone database (598 files, every transition -1/0/+1 s, forward and inverse, in seeded order) plus seeded synthetic TZif files (v1/v2/v3, 0..3000 transitions, >255, no-op transitions, v1 block differing from the 64-bit block) are served from the simulated file system; lookups run as op sequences on a handle with history and on a fresh handle, each answer compared with an independent table model; every fifth plan also runs dconv --zone/--from-zone and dzone --next --prev on the same file. Hangs are caught by a CPU budget. Sampling over op orders, exhaustive over the transitions of the installed database. dzone --prev is judged in the first range of the table as well (right-hand side only). Tool-level runs deliver their values as arguments, plain stdin lines, sed mode and empty mode, under zone paths of 9 to 1000 bytes; one plan kind runs dzone over 24..40 copies of the zone in a simulated process limited to 16 descriptors.",
         "note": "Trusted: the 60-line reference TZif reader and civil-from-epoch formatter in sim/models.h. Instants before the first listed transition prime state but their value is not judged (the statement starts at the first transition). The inverse clause is judged on tables whose transitions are at least 26 h apart (all installed zones qualify). Tool-level output is compared only for quarter-hour offsets (%Z resolution) and years 1601..3800.",
     },
     "C13": {
         "engine": "hist", "category": "exploration", "design_ref": "DESIGN.md section 4",
         "technique": "deterministic simulation: N-input incarnation vs N one-input incarnations under one simulated clock; op sequences on a zone handle vs fresh-handle answers",
-        "text": "Histories: for 37 line-independent invocations of dconv/dadd/dround/ddiff/dgrep/dzone a seeded history of 1..700 values (arguments or stdin lines, one line per read()) must print exactly the concatenation of the one-value runs; values are drawn to prime known state (before-first-transition, index >255, missing fields, junk between good values, >255 searches, reader window reuse in the 64-byte-window build). Handle level: after any op sequence a zone handle and its zif_copy must answer like a freshly opened handle, on all installed zones and synthetic ones. Half of the histories draw the invocation from the same seeded grammar instead of the table (overlapping -i families, -E on plain stdin, 12..40-item output formats, zone pairs whose first name is a prefix of the second).",
+        "text": "Histories: for 37 line-independent invocations of dconv/dadd/dround/ddiff/dgrep/dzone a seeded history of 1..700 values (arguments or stdin lines, one line per read()) must print exactly the concatenation of the one-value runs; values are drawn to prime known state (before-first-transition, index >255, missing fields, junk between good values, >255 searches, reader window reuse in the 64-byte-window build). Handle level: after any op sequence a zone handle and its zif_copy must answer like a freshly opened handle, on all installed zones and synthetic ones. Half of the histories draw the invocation from the same seeded grammar instead of the table (overlapping -i families, -E on plain stdin, 12..40-item output formats, zone pairs whose first name is a prefix of the second). The table also holds four entries for the strptime helper (libc strptime seam is a pass-through) and fixed-offset zone specs; long histories in the small-window builds are delivered one line per read or as fast as asked for.",
         "note": "Trusted: forked incarnations really start from fresh static state. Histories with clock-dependent values (time without date, year-month) run under a frozen clock, because the moment `now' is first needed legitimately differs between a long run and a one-value run. dzone histories use well-formed dates only (dzone takes anything else for a zone name).",
     },
 })
@@ -51,7 +51,7 @@ CHECKS.update({
     "C19": {
         "engine": "files", "category": "fault_enumeration", "design_ref": "DESIGN.md section 6",
         "technique": "deterministic simulation with fault injection on a simulated file layer: seeded fault sequences (truncation, corrupted header fields, torn bytes, failing open/fstat/mmap/malloc/write) against the real loaders and map compiler under ASan and guard pages; compiled-map lookups against the source as reference model",
-        "text": "Loader robustness: images of the installed zone database and maps produced by the real compiler are damaged by seeded fault sequences placed at header fields, block boundaries and record ends, then opened, queried and closed inside one incarnation; the oracle is structural (returns within a CPU budget, no sanitizer report, no fault on the guard page behind the file image, returned strings usable). Faithfulness: for generated sources with variable-length keys and zone names that are prefixes of each other every key, each strict prefix, one-character extensions and sort-order neighbours are looked up in the compiled map and compared with the source; write faults in the compiler must leave either nothing or a complete map. Seeded enumeration of fault positions, not exhaustive. Tool level: several MAP:KEY specs (two maps m and mm, keys with colons, zone names that are prefixes of each other) resolved by one dzone process must agree with one process per plain zone name.",
+        "text": "Loader robustness: images of the installed zone database and maps produced by the real compiler are damaged by seeded fault sequences placed at header fields, block boundaries and record ends, then opened, queried and closed inside one incarnation; the oracle is structural (returns within a CPU budget, no sanitizer report, no fault on the guard page behind the file image, returned strings usable). Faithfulness: for generated sources with variable-length keys and zone names that are prefixes of each other every key, each strict prefix, one-character extensions and sort-order neighbours are looked up in the compiled map and compared with the source; write faults in the compiler must leave either nothing or a complete map. Seeded enumeration of fault positions, not exhaustive. Tool level: several MAP:KEY specs (two maps m and mm, keys with colons, zone names that are prefixes of each other) resolved by one dzone process must agree with one process per plain zone name. Synthetic images with all 256 type indices and few transitions; a map refused thirty times in a process limited to 20 descriptors must not keep a good map from loading; malformed lines anywhere in a map source.",
         "note": "Trusted: the simulated mmap (file image + ASan-poisoned slack + PROT_NONE guard; in the gcc build only the guard page), the allocator_may_return_null setting (huge allocations fail like malloc does). After a content fault the values returned are not judged. Sources are well-formed and ascending as tzmap check demands; zone name pools stay below 64 KiB (the format's 16-bit offset). A descriptor left open after a failed load is counted as a diagnostic, not a violation.",
     },
 })
@@ -69,8 +69,8 @@ CHECKS.update({
     "C08": {
         "engine": "sort", "category": "exploration", "design_ref": "DESIGN.md section 7b",
         "technique": "deterministic simulation of a process pipeline: dsort's real main against simulated pipes, vfork children and stub sort/cut processes stepped by a seeded scheduler (pipe capacities, short writes, interleavings); permutation, order and liveness oracles",
-        "text": "Scoped claim. What is simulated is the datesort clause: dsort computes a key per line, writes line and key with its own safe_write() into a pipe and relies on descriptor plumbing across two vfork()ed children to terminate. The simulator owns pipes (capacity 1 byte to 64 KiB), accepts as few bytes per write as the plan says, and picks which helper runs next; oracles: stdout is a permutation of the input lines, dated lines of one kind come out in chronological order (reverse with -r) by the generator's own instants, every helper sees EOF and is reaped (no deadlock, no descriptor misuse), and the real dtest agrees with the order of adjacent lines. The order laws of the comparison functions themselves (antisymmetry, transitivity, totality over all calendars) are pure functions of the values and are NOT decided by this technique; only the dtest cross-check touches them. Lines carry dates, date-times with and without UTC offsets, times, month-count-weekday dates and, with 1..40 -i formats, %Y%m%d and %d/%m/%Y stamps.",
-        "note": "Trusted: the stub sort(1)/cut(1) (bytewise C-locale comparison of fields 2.., last-resort whole-line comparison, -r) -- locale-dependent collation of a real sort on tied keys is not simulated; the vfork emulation (setjmp in the caller's frame, child branch first). Lines containing the separator byte 0x01 are not generated (a pure-input limitation of dsort's protocol). -u is not exercised (output is then not a permutation by design).",
+        "text": "Scoped claim. What is simulated is the datesort clause: dsort computes a key per line, writes line and key with its own safe_write() into a pipe and relies on descriptor plumbing across two vfork()ed children to terminate. The simulator owns pipes (capacity 1 byte to 64 KiB), accepts as few bytes per write as the plan says, and picks which helper runs next; oracles: stdout is a permutation of the input lines, dated lines of one kind come out in chronological order (reverse with -r) by the generator's own instants, every helper sees EOF and is reaped (no deadlock, no descriptor misuse), and the real dtest agrees with the order of adjacent lines. The order laws of the comparison functions themselves (antisymmetry, transitivity, totality over all calendars) are pure functions of the values and are NOT decided by this technique; only the dtest cross-check touches them. Lines carry dates, date-times with and without UTC offsets, times, month-count-weekday dates and, with 1..40 -i formats, %Y%m%d and %d/%m/%Y stamps. The sort(1) stub parses the argv dsort hands it (-t SEP, -k F[,G], -r, -u) and orders by exactly those keys.",
+        "note": "Trusted: the stub sort(1)/cut(1) (keys as given by -t/-k on the command line dsort builds, bytewise C-locale comparison, last-resort whole-line comparison, -r, -u) -- locale-dependent collation of a real sort on tied keys is not simulated; the vfork emulation (setjmp in the caller's frame, child branch first). Lines containing the separator byte 0x01 are not generated (a pure-input limitation of dsort's protocol). -u is not exercised (output is then not a permutation by design).",
     },
 })
 
